@@ -301,6 +301,36 @@ pub fn trace_to_stderr() -> bool {
     *T.get_or_init(|| std::env::var_os("VERIF_TRACE").is_some())
 }
 
+// ---------------------------------------------------------------- randomness of the code under test
+
+thread_local! {
+    /// the random bytes handed to the code under test during a run (vendored `getrandom`): a stream of its
+    /// own, derived from the run's seed, so that it does not show up in the choice sequence
+    static ENTROPY: RefCell<Option<Rng>> = const { RefCell::new(None) };
+}
+
+/// Called by the vendored `getrandom` crates. Returns 1 after filling the buffer when a run is active on
+/// this thread, 0 otherwise (the caller then asks the operating system).
+#[unsafe(no_mangle)]
+pub unsafe extern "C" fn __verif_getrandom(ptr: *mut u8, len: usize) -> i32 {
+    let active = IN_RUN.try_with(|c| c.get()).unwrap_or(false);
+    if !active {
+        return 0;
+    }
+    ENTROPY
+        .try_with(|e| {
+            let mut e = e.borrow_mut();
+            let Some(rng) = e.as_mut() else { return 0 };
+            let out = unsafe { std::slice::from_raw_parts_mut(ptr, len) };
+            for chunk in out.chunks_mut(8) {
+                let v = rng.next().to_le_bytes();
+                chunk.copy_from_slice(&v[..chunk.len()]);
+            }
+            1
+        })
+        .unwrap_or(0)
+}
+
 // ---------------------------------------------------------------- thread-local access
 
 thread_local! {
@@ -438,6 +468,8 @@ pub fn execute(scenario: &dyn Fn() -> RunResult, mut d: Decider, log: bool) -> F
     CUR.with(|c| *c.borrow_mut() = Some(d));
     LAST_PANIC.with(|p| *p.borrow_mut() = None);
     IN_RUN.with(|c| c.set(true));
+    let entropy_seed = CUR.with(|c| c.borrow().as_ref().map(|d| d.seed).unwrap_or(0)) ^ 0x6e74726f70793a29;
+    ENTROPY.with(|e| *e.borrow_mut() = Some(Rng::new(entropy_seed)));
     quarantine::begin();
     let r = panic::catch_unwind(AssertUnwindSafe(scenario));
     quarantine::end();
